@@ -136,7 +136,8 @@ class GM:
 
     def boolean(self, d):
         r = self.rng
-        k = r.choice(["rel", "rel", "rel", "rel3", "and", "or", "not", "const"]) if d > 0 else r.choice(["rel", "const"])
+        k = (r.choice(["rel", "rel", "rel", "rel3", "and", "or", "not", "const", "xor", "thresholds"]) if d > 0
+             else r.choice(["rel", "const", "thresholds"]))
         rels = ["AST_RELATIONAL_LT", "AST_RELATIONAL_LEQ", "AST_RELATIONAL_GT", "AST_RELATIONAL_GEQ",
                 "AST_RELATIONAL_EQ", "AST_RELATIONAL_NEQ"]
         if k == "const":
@@ -147,7 +148,17 @@ class GM:
             return [r.choice(rels[:5]), [self.num(d - 1), self.num(d - 1), self.num(d - 1)]]
         if k == "not":
             return ["AST_LOGICAL_NOT", [self.boolean(d - 1)]]
-        return ["AST_LOGICAL_AND" if k == "and" else "AST_LOGICAL_OR", [self.boolean(d - 1), self.boolean(d - 1)]]
+        if k == "thresholds":
+            # n-ary connective over nested thresholds of one quantity: any number of the operands can hold at once
+            x = ["ci", r.choice(self.names)] if self.names else self.cn()
+            n = r.choice([2, 3, 3, 4])
+            ths = r.sample(["0", "1/2", "1", "3/2", "2", "3", "4"], n)
+            ops = [[r.choice(["AST_RELATIONAL_GT", "AST_RELATIONAL_GEQ"]), [x, ["cn", t]]] for t in ths]
+            return [r.choice(["AST_LOGICAL_XOR", "AST_LOGICAL_XOR", "AST_LOGICAL_AND", "AST_LOGICAL_OR"]), ops]
+        if k == "xor":
+            return ["AST_LOGICAL_XOR", [self.boolean(d - 1) for _ in range(r.choice([2, 3, 3]))]]
+        return ["AST_LOGICAL_AND" if k == "and" else "AST_LOGICAL_OR",
+                [self.boolean(d - 1) for _ in range(r.choice([2, 2, 3]))]]
 
 
 def math_names(m):
@@ -173,7 +184,7 @@ def uses_all(rng, g, m, names):
 
 
 def gen_doc(rng, *, stratum: str):
-    """stratum: exact | float | keywords | mixed | srefkw | compkw | initname | digits"""
+    """stratum: exact | float | keywords | mixed | srefkw | compkw | initname | digits | gennames | rewrite"""
     floaty = stratum == "float"
     kw = stratum == "keywords"
     pool_s = list(PLAIN_S) + (KEYWORD_IDS[:4] if kw else [])
@@ -295,6 +306,27 @@ def gen_doc(rng, *, stratum: str):
             law = ["AST_TIMES", [["ci", comps[0][0]], law]]
         law = uses_all(rng, g, law, [sp["id"] for sp in parts][:1])
         rxns.append({"id": rid, "reactants": reactants, "products": products, "law": law})
+    if stratum == "gennames":
+        # a reaction called like a helper function the importer generates: <R>_stoich_<S> for a reaction R acting
+        # on S (declared before or after it), init_<x> for an x with an initial assignment
+        r0 = rxns[0]
+        s0 = (r0["reactants"] + r0["products"])[0][0]
+        g = GM(rng, law_names, floaty=False, funs=funs)
+        other = rng.choice(species)["id"]
+        twin = {"id": f"{r0['id']}_stoich_{s0}", "reactants": [], "products": [[other, rng.choice(["1", "2", "1/2"]), None]],
+                "law": uses_all(rng, g, g.num(1), [other])}
+        rxns.insert(rng.choice([0, 1, len(rxns)]), twin)
+        ia_ids = [k for k, _ in inits]
+        if not ia_ids and const_ps:
+            p0 = const_ps[0]
+            inits.append([p0, ["AST_PLUS", [["cn", "3"], ["cn", "1/2"]]]])
+            ia_ids = [p0]
+        for x in ia_ids[:1]:
+            g = GM(rng, law_names, floaty=False, funs=funs)
+            other = rng.choice(species)["id"]
+            rxns.insert(rng.choice([0, len(rxns)]),
+                        {"id": f"init_{x}", "reactants": [[other, "1", None]], "products": [],
+                         "law": uses_all(rng, g, g.num(1), [other])})
     finding = {"mixed": "F-C17-4", "srefkw": "F-C17-5", "compkw": "F-C17-6"}.get(stratum)
     if stratum == "srefkw" and sref_n == 0:
         finding = None
@@ -305,8 +337,25 @@ def gen_doc(rng, *, stratum: str):
     states = [[[s["id"], rng.choice(["0", "1", "2", "3", "4", "1/2", "3/2", "6"])] for s in species] for _ in range(3)]
     doc = {"comps": comps, "species": species, "params": params, "fundefs": fundefs, "inits": inits, "rules": rules,
            "rxns": rxns}
+    prev_doc = None
+    if stratum == "rewrite":
+        # the document that was at this path before: the same text but for one digit (same byte length), or an
+        # unrelated document
+        import copy
+
+        prev_doc = copy.deepcopy(doc)
+        digits = [pr for pr in prev_doc["params"] if pr[1] in ("0", "1", "2", "3", "7")]
+        sdig = [sp for sp in prev_doc["species"] if sp["init"] in ("0", "1", "2", "3", "6")]
+        if digits and rng.random() < 0.8:
+            pr = rng.choice(digits)
+            pr[1] = rng.choice([v for v in ("1", "2", "3", "5", "7") if v != pr[1]])
+        elif sdig:
+            sp = rng.choice(sdig)
+            sp["init"] = rng.choice([v for v in ("1", "2", "3", "4", "6") if v != sp["init"]])
+        else:
+            prev_doc = gen_doc(rng, stratum="exact")["doc"]
     return {"kind": stratum, "doc": doc, "states": states, "watch": [r[0] for r in rules], "finding": finding,
-            "raw": raw, "stem": rng.choice(["model", "Model-A", "my model", "m.v2", "BIOMD0000000012", "x_y"])}
+            "prev_doc": prev_doc, "keep_mtime": rng.random() < 0.7, "raw": raw, "stem": rng.choice(["model", "Model-A", "my model", "m.v2", "BIOMD0000000012", "x_y"])}
 
 
 # ---------------------------------------------------------------------------------------------- oracle S
@@ -354,6 +403,8 @@ class DocSpec:
             return all(self.ev(k, env, loc) for k in kids)
         if t == "AST_LOGICAL_OR":
             return any(self.ev(k, env, loc) for k in kids)
+        if t == "AST_LOGICAL_XOR":
+            return sum(1 for k in kids if self.ev(k, env, loc)) % 2 == 1
         xs = [self.ev(k, env, loc) for k in kids]
         if t == "AST_LOGICAL_NOT":
             return not xs[0]
@@ -718,7 +769,20 @@ def real_worker(job):
     path = SCRATCH / wid / f"c17w{wid} {case['stem']}.xml"
     out: dict = {}
     try:
-        write_doc(case["doc"], path, case.get("raw"))
+        if case.get("prev_doc") is not None:
+            # the path has been read before in this process, holding another document; the new file may keep
+            # the old time stamp (copy with preserved times, archive extraction, same clock second)
+            write_doc(case["prev_doc"], path)
+            st = path.stat()
+            try:
+                sbml.read(path)
+            except Exception:  # noqa: BLE001
+                pass
+            write_doc(case["doc"], path, case.get("raw"))
+            if case.get("keep_mtime"):
+                os.utime(path, ns=(st.st_atime_ns, st.st_mtime_ns))
+        else:
+            write_doc(case["doc"], path, case.get("raw"))
         try:
             m = sbml.read(path)
         except Exception as e:  # noqa: BLE001
@@ -819,7 +883,7 @@ def spec_numbers(case):
 
 
 def judge_doc(ctx, case, R, M, S=None, what="imported model differs from the document"):
-    small = {k: case.get(k) for k in ("kind", "doc", "states", "watch", "finding", "stem", "raw")}
+    small = {k: case.get(k) for k in ("kind", "doc", "states", "watch", "finding", "stem", "raw", "prev_doc", "keep_mtime")}
     S = S or spec_numbers(case)
     stats: dict = {}
     if M is not None:
@@ -1015,7 +1079,7 @@ def setup(ctx):
 def strata(ctx):
     n = ctx.n(1, 40)
     return [("exact", 110 * n), ("float", 60 * n), ("keywords", 40 * n), ("initname", 15 * n), ("mixed", 15 * n),
-            ("srefkw", 12 * n), ("compkw", 6 * n), ("digits", 12 * n)]
+            ("srefkw", 12 * n), ("compkw", 6 * n), ("digits", 12 * n), ("gennames", 24 * n), ("rewrite", 20 * n)]
 
 
 PAIR_STEMS = [("Model-1", "model 1"), ("A", "a"), ("m.v2", "mv2"), ("x", "x"), ("my  model", "my-model")]
